@@ -58,6 +58,17 @@ uint64_t w_canbrief_steps(uint8_t* pdu, uint64_t id, uint8_t* payload, uint64_t 
 
 /* ---------------- VSS ---------------- */
 void w_vss_pad(uint8_t* pdu, uint64_t len) { Avtp_Vss_Pad((Avtp_Vss_t*)pdu, (uint16_t)len); }
+/* read length and pad through the dedicated getters, finalise, read them again - all inside one function, as an
+ * application does; out: length before, pad before, length after, pad after (16 bits each, big-endian) */
+void w_vss_pad_getters(uint8_t* pdu, uint64_t len, uint8_t* out)
+{
+    Avtp_Vss_t* v = (Avtp_Vss_t*)pdu;
+    uint16_t l0 = Avtp_Vss_GetAcfMsgLength(v), p0 = Avtp_Vss_GetPad(v);
+    Avtp_Vss_Pad(v, (uint16_t)len);
+    uint16_t l1 = Avtp_Vss_GetAcfMsgLength(v), p1 = Avtp_Vss_GetPad(v);
+    out[0] = (uint8_t)(l0 >> 8); out[1] = (uint8_t)l0; out[2] = (uint8_t)(p0 >> 8); out[3] = (uint8_t)p0;
+    out[4] = (uint8_t)(l1 >> 8); out[5] = (uint8_t)l1; out[6] = (uint8_t)(p1 >> 8); out[7] = (uint8_t)p1;
+}
 uint64_t w_vss_pathlen(uint8_t* pdu) { return Avtp_Vss_CalcVssPathLength((Avtp_Vss_t*)pdu); }
 
 /* kind 0: caller's VssPath_t holds an interop path (length + pointer); kind 1: a static id */
